@@ -168,10 +168,11 @@ pub fn run_leg(cfg: &RunCfg, leg_idx: usize, leg: &Leg, stats: &mut Stats) -> Ou
                             }
                         };
                         match rerun {
-                            Err(wf) if !wf.inconclusive => Some(Ok(Violation {
-                                replay: replay_json(&id, leg_name, &wf.fail, &minimal.start, &wf.trace, opts.profile, seed, shard),
-                                fail: wf.fail,
-                            })),
+                            Err(wf) if !wf.inconclusive => {
+                                let mut replay = replay_json(&id, leg_name, &wf.fail, &minimal.start, &wf.trace, opts.profile, seed, shard);
+                                replay["follow_norep"] = json!(opts.follow_norep);
+                                Some(Ok(Violation { replay, fail: wf.fail }))
+                            }
                             _ => Some(Err("shrunk case did not fail when re-run (non-deterministic check?)".to_string())),
                         }
                     }
@@ -211,7 +212,11 @@ pub fn replay_game(v: &Value, mk: fn() -> Box<dyn Obs>) -> Result<Option<Fail>, 
     let actions = parse_list("actions")?;
     let branch = parse_list("branch")?;
     let profile = profile_from(v["profile"].as_str().unwrap_or("normal"));
-    let opts = WalkOpts { profile, expand: None };
+    let inject = match v["fork"].as_u64() {
+        Some(n) => crate::drive::Inject::AtEnd(n as u8),
+        None => crate::drive::Inject::No,
+    };
+    let opts = WalkOpts { profile, expand: None, follow_norep: v["follow_norep"].as_bool().unwrap_or(false), inject };
     let mut obs = mk();
     let mut st = Stats::default();
     // main line
